@@ -27,6 +27,9 @@ def spaces(ctx):
                 np.array([2.0 ** 40 + k for k in (3, 0, 2, 1)]), -1.0e9 + np.arange(7) * 0.5):
         out.append({"a": np.array(arr)})
     out.append({"a": 1.0e6 + np.arange(5) / 4096.0, "b": np.arange(3)})
+    # values very far apart (integer differences beyond 2**32: a squared distance leaves int64) and, in floats, exactly representable powers of two
+    out.append({"a": np.array([0, 2 ** 33, 2 ** 34, 3 * 2 ** 33]), "b": np.arange(3)})
+    out.append({"a": np.array([-2 ** 40, 7, 2 ** 41]), "b": np.array([2.0 ** 60, 2.0 ** 61, -2.0 ** 62])})
     # dimensions holding one value at several indices (outside C20's quantifier: only the K-units run on them, the model and the code
     # must still agree -- both take the FIRST index of a repeated value)
     for arr in ([4, 2, 5, 2, 1, 3], [1, 1], [1, 1, 2, 2, 3, 4, 6, 10], [3.0, 1.5, 3.0], [7, 7, 7]):
